@@ -135,7 +135,32 @@ func loadTemplate(r *Repo) *tmplInfo {
 
 // instantiate walks the parse tree under cfg. It returns the produced text
 // and, for every output line, the template line it came from.
+// instantiate returns the instantiation with the runtime's names rewritten to
+// their role names (vocab.go); instantiateRaw is the text as the template
+// spells it.
 func (ti *tmplInfo) instantiate(cfg tmplConfig) (string, []int, error) {
+	head, lm, err := ti.instantiateRaw(cfg)
+	if err != nil {
+		return head, lm, err
+	}
+	v, problem := runtimeVocab(head)
+	if problem != "" {
+		return head, lm, fmt.Errorf("%s", problem)
+	}
+	return applyVocab(head, v), lm, nil
+}
+
+// vocabFor: the renaming instantiate applied (nil when the names are the role names).
+func (ti *tmplInfo) vocabFor(cfg tmplConfig) map[string]string {
+	head, _, err := ti.instantiateRaw(cfg)
+	if err != nil {
+		return nil
+	}
+	v, _ := runtimeVocab(head)
+	return v
+}
+
+func (ti *tmplInfo) instantiateRaw(cfg tmplConfig) (string, []int, error) {
 	var sb strings.Builder
 	var lineMap []int
 	curLine := func(pos parse.Pos) int { return 1 + strings.Count(ti.Text[:int(pos)], "\n") }
@@ -412,6 +437,7 @@ type inst struct {
 	Errs    []string
 	ti      *tmplInfo
 	repo    *Repo // set for peg.peg.go
+	canonOf *Repo // set when peg.peg.go was re-read with its runtime names rewritten
 	E1Tail  bool  // the rule table was printed by the emitter (E1), not the stand-in
 }
 
@@ -425,7 +451,9 @@ func (m mapImporter) Import(path string) (*types.Package, error) {
 }
 
 // buildInst parses, type-checks and SSA-builds src.
-func buildInst(r *Repo, name, src string) *inst {
+func buildInst(r *Repo, name, src string) *inst { return buildInstWith(mapImporter(r.Std), name, src) }
+
+func buildInstWith(imp mapImporter, name, src string) *inst {
 	in := &inst{Name: name, Src: src, Fset: token.NewFileSet()}
 	f, err := parser.ParseFile(in.Fset, name+".go", src, parser.ParseComments|parser.SkipObjectResolution)
 	if err != nil {
@@ -436,7 +464,7 @@ func buildInst(r *Repo, name, src string) *inst {
 	in.Info = &types.Info{Types: map[ast.Expr]types.TypeAndValue{}, Defs: map[*ast.Ident]types.Object{}, Uses: map[*ast.Ident]types.Object{},
 		Implicits: map[ast.Node]types.Object{}, Selections: map[*ast.SelectorExpr]*types.Selection{}, Scopes: map[ast.Node]*types.Scope{},
 		Instances: map[*ast.Ident]types.Instance{}, FileVersions: map[*ast.File]string{}}
-	tc := &types.Config{Importer: mapImporter(r.Std), Error: func(err error) { in.Errs = append(in.Errs, err.Error()) }}
+	tc := &types.Config{Importer: imp, Error: func(err error) { in.Errs = append(in.Errs, err.Error()) }}
 	pkg, _ := tc.Check("p", in.Fset, []*ast.File{f}, in.Info)
 	in.Pkg = pkg
 	if len(in.Errs) > 0 {
@@ -475,6 +503,9 @@ func (in *inst) srcPos(p token.Pos) string {
 		return in.repo.pos(p)
 	}
 	line := in.Fset.Position(p).Line
+	if in.canonOf != nil {
+		return fmt.Sprintf("peg.peg.go:%d", line)
+	}
 	if in.LineMap != nil && line-1 < len(in.LineMap) {
 		return fmt.Sprintf("tree/peg.go.tmpl:%d", in.LineMap[line-1])
 	}
@@ -605,7 +636,7 @@ func runtimeInstances(c *Check, r *Repo) []*inst {
 			if t2, ok := emittedTail(r, ti, v); ok {
 				e1 = true
 				// the rule table as the emitter itself prints it for a grammar using these features
-				tail = t2
+				tail = applyVocab(t2, ti.vocabFor(cfg))
 				cfg.RuleNames = []string{"S", "A"}
 				if v["HasPush"] {
 					cfg.RuleNames = append(cfg.RuleNames, "PegText")
@@ -650,6 +681,30 @@ func runtimeInstances(c *Check, r *Repo) []*inst {
 				in := &inst{Name: "peg.peg.go", Fset: r.Fset, File: f, Pkg: mp.Types, Info: mp.TypesInfo, SSA: r.SSA[modPath]}
 				in.Cfg = tmplConfig{Struct: "Peg", Bools: map[string]bool{"Ast": true, "HasActions": true, "HasPush": true, "HasDot": true, "HasString": true}}
 				in.repo = r
+				// when the runtime's names are not the role names the file is re-read with
+				// the names rewritten (type-checked on its own, against the repository's packages)
+				if src, err := os.ReadFile(r.Fset.Position(f.Pos()).Filename); err == nil {
+					if v, problem := runtimeVocab(string(src)); problem != "" {
+						c.Und("R-anchor", "peg.peg.go/runtime names", "peg.peg.go", problem)
+						continue
+					} else if len(v) > 0 {
+						imp := mapImporter{}
+						for k, p := range r.Std {
+							imp[k] = p
+						}
+						for k, p := range r.Pkgs {
+							imp[k] = p.Types
+						}
+						in2 := buildInstWith(imp, "peg.peg", applyVocab(string(src), v))
+						if len(in2.Errs) > 0 {
+							c.Und("R-anchor", "peg.peg.go/runtime names", "peg.peg.go", "after rewriting the runtime's names to their roles the file no longer type-checks on its own: "+in2.Errs[0])
+							continue
+						}
+						in2.Name, in2.Cfg = "peg.peg.go", in.Cfg
+						in2.canonOf = r
+						in = in2
+					}
+				}
 				good = append(good, in)
 				c.Note("template configurations", "peg.peg.go (checked-in instance)")
 			}
